@@ -16,7 +16,7 @@ Nunavut's edits (see EXCLUDED; the list is copied into REPORT.md).
 EXCLUDED = [
     "template text containing \\x0b \\x0c \\x1c-\\x1e \\x85 U+2028 U+2029 (2.x splits the source with str.splitlines, 3.x only on \\r\\n|\\r|\\n)",
     "float literals with exponent or digit separators (1e3, 1_000): 3.x lexer only",
-    "chained power a ** b ** c (associativity changed upstream); only `(a) ** literal` is generated",
+    "comparison chains (two or more operators) over constants only: constant folding keeps only the last comparison in the 2.11.dev snapshot (`85 < 12 not in [true]`); generated chains contain a context variable",
     "inline `x if c` without else (3.x yields a plain Undefined even under StrictUndefined)",
     "the `+` modifier at a tag end (`+%}`, `+#}`): 3.x only — generated comments never end in `+`",
     "dotted filter names (`x|string.split()`): accepted by 3.x, 'no filter named' in 2.x — postfix operands are parenthesised",
@@ -75,6 +75,11 @@ class Gen:
         ctx["n0"] = None
         ctx["acc"] = []          # only ever appended to through {% do %}; never iterated (no unbounded loops)
         ctx["obj"] = {"a": r.randint(0, 3), "b": self.rand_str(3), "l": [1, 2][: r.randint(0, 2)]}
+        for i in range(3):
+            ctx[f"p{i}"] = r.randint(0, 3)      # small: chained powers stay cheap whichever way they are grouped
+        def tree(depth):
+            return [{"v": r.randint(0, 9), "c": tree(depth - 1) if depth > 0 and r.random() < 0.6 else []} for _ in range(r.randint(0, 3))]
+        ctx["tree"] = tree(2)
         return ctx
 
     def root_scope(self):
@@ -246,6 +251,102 @@ class Gen:
         if k == 8: return self.r.choice(["n0", "none", "d", "d|dictsort", "obj.l", "(1, 'a')", "{'a': 1}", "1.5", "2.0 * 3", "7 / 2", "i0 / 4", "1.25|round(1)", "(i0)|float"])
         return self.e_str(sc, d)
 
+    # ---- operator soup: every operator, chained at the same precedence level WITHOUT parentheses -------------------
+    def s_atom(self, sc, d):
+        r = self.r
+        k = r.randint(0, 15)
+        if k <= 3: return str(r.randint(0, 4))
+        if k <= 5: return r.choice(["p0", "p1", "p2"])
+        if k == 6: return r.choice(sc.of("int") or ["p0"])
+        if k == 7: return r.choice(["obj.a", "obj['a']", "d.get('k', 2)", "li|length", "[1, 2, 3][p0 % 3]", "(4, 5)[1]", "{'a': 2}['a']", "{'a': 2, 'b': 3}.b",
+                                    "range(p0, 4)|list|last", "'abc'|length", "dict(a=1, b=2).b", "[p0, p1]|max", "(p0, p1, p2)|sum", "[[1, 2], [3]][0][1]"])
+        if k == 8: return self.s_atom(sc, d) + "|" + r.choice(["abs", "int", "string|length", "default(3)", "round|int", "float|int"])
+        if k == 9 and d > 0: return "(" + self.s_arith(sc, d - 1) + ")"
+        if k == 10: return r.choice(["-", "+", "- ", "-"]) + r.choice(["1", "2", "3", "p0", "p1", "p2", "(p0 + 1)", "-1", "obj.a"])
+        if k == 11 and d > 0: return "[" + self.s_arith(sc, d - 1) + ", " + self.s_atom(sc, 0) + "][" + r.choice(["0", "1", "-1"]) + "]"
+        if k == 12: return r.choice(["li[0:2]|length", "s0[::2]|length", "s0[1:-1:2]|length", "li[-1:]|length", "ls[:p0]|length", "range(9)[p0:p1 + 3]|list|length", "s1[p0:]|length"])
+        if k == 13 and sc.in_loop: return r.choice(["loop.index", "loop.index0", "loop.depth0"])
+        if k == 14: return "1.5" if r.random() < 0.3 else "2.0"
+        return str(r.randint(1, 3))
+
+    def s_pow(self, sc, d):
+        r = self.r
+        n = r.choice([1, 1, 1, 2, 2, 3])
+        parts = [self.s_atom(sc, d)] + [r.choice(["0", "1", "2", "3", "p0", "p1", "p2", "2", "1", "3", "p1", "p2", "-1" if r.random() < 0.2 else "2", "0.5" if r.random() < 0.3 else "1"]) for _ in range(n - 1)]
+        if n > 1:
+            self.features.add("chained-pow" if n > 2 else "pow")
+        return " ** ".join(parts) if r.random() < 0.7 else "**".join(parts)
+
+    def s_mul(self, sc, d):
+        r = self.r
+        e = self.s_pow(sc, d)
+        for _ in range(r.choice([0, 0, 1, 1, 2, 3])):
+            op = r.choice(["*", "/", "//", "%"])
+            rhs = self.s_pow(sc, d) if op == "*" else r.choice(["1", "2", "3", "4", "2.0", "(p0 + 1)", "(" + self.s_pow(sc, 0) + " + 5)"])
+            e += f" {op} {rhs}"
+        return e
+
+    def s_arith(self, sc, d):
+        r = self.r
+        e = self.s_mul(sc, d)
+        for _ in range(r.choice([0, 1, 1, 2, 3])):
+            e += r.choice([" + ", " - ", " - ", "-", "+"]) + self.s_mul(sc, d)
+        return e
+
+    def s_concat(self, sc, d):
+        r = self.r
+        e = self.s_arith(sc, d)
+        for _ in range(r.choice([0, 0, 1, 2])):
+            e += " ~ " + r.choice([self.s_arith(sc, d), self.lit_str(), r.choice(sc.of("str") or ["s0"])])
+        return e
+
+    def s_cmp(self, sc, d):
+        r = self.r
+        k = r.randint(0, 9)
+        a = self.s_arith(sc, d)
+        if k <= 3:
+            nops = r.choice([1, 1, 2, 3])
+            # a chain of two or more comparisons gets a context variable: a chain over constants only is folded at compile
+            # time, and the 2.11.dev snapshot folds it to its LAST comparison (EXCLUDED)
+            e = a if nops == 1 else r.choice(["p0", "p1", "p2"]) + r.choice([" + ", " * "]) + a
+            for _ in range(nops):
+                e += " " + r.choice(["==", "!=", "<", "<=", ">", ">="]) + " " + self.s_arith(sc, d)
+            if e.count("<") + e.count(">") + e.count("=") > 1:
+                self.features.add("comparison-chain")
+            return e
+        if k == 4: return a + r.choice([" in ", " not in "]) + r.choice(["li", "[1, 2, 3]", "(0, 4)", "range(3)", "d.values()|list", "[p0, p1]"])
+        if k == 5: return a + " is " + r.choice(["", "not "]) + r.choice(["odd", "even", "divisibleby 2", "divisibleby(3)", "number", "string", "defined", "none", "sameas p0", "eq p1", "ne(2)", "lt 3", "ge(p2)", "in [1, 2]", "in(li)"])
+        if k == 6: return self.s_concat(sc, d) + r.choice([" == ", " != ", " in "]) + self.s_concat(sc, d)
+        if k == 7: return r.choice(sc.of("bool") or ["b0"])
+        if k == 8: return r.choice(["p0", "p1"]) + " + " + a + " < " + self.s_arith(sc, d) + r.choice([" in ", " not in "]) + "[true, false]"
+        return a
+
+    def s_bool(self, sc, d):
+        r = self.r
+        e = r.choice(["", "", "not ", "not not "]) + self.s_cmp(sc, d)
+        for _ in range(r.choice([0, 0, 1, 2, 3])):
+            e += r.choice([" and ", " or "]) + r.choice(["", "", "not "]) + self.s_cmp(sc, d)
+        if " and " in e and " or " in e:
+            self.features.add("and-or-mix")
+        return e
+
+    def s_expr(self, sc, d):
+        """a full expression: conditional-expression chains over the boolean / arithmetic / concat levels, tuples, lists, dicts"""
+        r = self.r
+        self.features.add("operator-soup")
+        k = r.randint(0, 11)
+        if k <= 2: return self.s_arith(sc, d)
+        if k == 3: return self.s_concat(sc, d)
+        if k <= 5: return self.s_bool(sc, d)
+        if k == 6: return f"{self.s_arith(sc, d)} if {self.s_bool(sc, d)} else {self.s_concat(sc, d)}"
+        if k == 7:
+            self.features.add("condexpr-chain")
+            return f"{self.s_arith(sc, d)} if {self.s_bool(sc, d)} else {self.s_arith(sc, d)} if {self.s_bool(sc, d)} else {self.s_arith(sc, d)}"
+        if k == 8: return "(" + self.s_arith(sc, d) + ", " + self.s_bool(sc, d) + r.choice(["", ","]) + ")"
+        if k == 9: return "[" + self.s_arith(sc, d) + ", " + self.s_concat(sc, d) + ", " + self.s_bool(sc, d) + "]"
+        if k == 10: return "{'x': " + self.s_arith(sc, d) + ", 'y': " + self.s_bool(sc, d) + "}|dictsort"
+        return self.s_arith(sc, d) + ", " + self.s_arith(sc, d)     # bare tuple
+
     def e_err(self, sc):
         """an expression that fails at run time in both engines"""
         return self.r.choice(["undefined_name", "i0 // 0", "nope.attr", "li[99]", "s0 + i0", "obj.zz.q", "1 % 0", "n0.x", "d['missing']", "(1, 2)|sum('x')", "missing_fn()", "i0()"])
@@ -319,7 +420,7 @@ class Gen:
 
     def stmt(self, sc, depth):
         r = self.r
-        k = r.randint(0, 29) if depth > 0 else r.randint(0, 7)
+        k = r.randint(0, 31) if depth > 0 else r.randint(0, 7)
         f = self.features.add
         if self.line_prefixes and r.random() < 0.12:
             f("line-statement")
@@ -335,6 +436,8 @@ class Gen:
             if r.random() < self.errors:
                 f("runtime-error")
                 return self.var(self.e_err(sc))
+            if r.random() < 0.35:
+                return self.var(self.s_expr(sc, r.choice([0, 0, 1])))
             return self.var(self.e_out(sc, r.randint(0, 3)))
         if k == 7:
             f("comment")
@@ -342,7 +445,7 @@ class Gen:
             return "{#" + r.choice(["", " ", "-"]) + c + r.choice(["", " ", " -"]) + "#}"
         if k <= 10:
             f("if")
-            s = self.tag("if " + self.e_bool(sc, 2)) + self.body(Scope(sc), depth - 1)
+            s = self.tag("if " + (self.s_bool(sc, 1) if r.random() < 0.3 else self.e_bool(sc, 2))) + self.body(Scope(sc), depth - 1)
             for _ in range(r.choice([0, 0, 1, 2])):
                 f("elif")
                 s += self.tag("elif " + self.e_bool(sc, 2)) + self.body(Scope(sc), depth - 1)
@@ -453,9 +556,32 @@ class Gen:
         if k == 25:
             f("do")
             return self.tag(r.choice(["do acc.append(i0)", "do acc.append(s0)", "do acc.extend([1, 2])"])) + (self.var("acc|length") if r.random() < 0.5 else "")
-        if k == 26 and r.random() < self.errors * 4:
+        if k == 30 and r.random() < self.errors * 8:
             f("syntax-error")
             return r.choice(["{% if %}", "{{ 1 + }}", "{% endfor %}", "{% for x %}", "{{ 'a }}", "{% unknown_tag %}", "{{ (1 }}", "{% set = 1 %}", "{{ a b }}", "{% if x %}", "{{ 1 | }}", "{% else %}"])
+        if k in (26, 31):
+            return self.shadow_stmt(sc, depth)
+        if k == 29 and depth > 0:
+            j = r.randint(0, 3)
+            if j == 0:
+                f("macro-varargs")
+                m = self.fresh("mv")
+                return (self.tag(f"macro {m}(a, b=2)") + "{{ a }}:{{ b }}:{{ varargs }}:{{ kwargs|dictsort }}" + self.text(3) + self.tag("endmacro")
+                        + self.var(r.choice([f"{m}(1)", f"{m}(1, 2, 3, 4)", f"{m}(p0, x=1, y=p1)", f"{m}(1, b=i0)", f"{m}(*[1, 2, 3])", f"{m}(**{{'a': 5, 'q': 6}})",
+                                             f"{m}.name ~ {m}.arguments|join(',')", f"{m}(1, 2, 3, k=4)|trim|length"])))
+            if j == 1:
+                f("caller-args")
+                m = self.fresh("mc")
+                bsc = Scope(sc); bsc.no_include = True; bsc.vars["u"] = "int"
+                return (self.tag(f"macro {m}(n)") + "{% for q in range(n) %}" + self.var("caller(q, q * 2)") + "{% endfor %}" + self.tag("endmacro")
+                        + self.tag(f"call(u, w=0) {m}(p0)") + "{{ u }}-{{ w }}" + self.body(bsc, depth - 1, 1) + self.tag("endcall"))
+            if j == 2:
+                f("recursive-loop")
+                return (self.tag("for n in tree recursive") + "{{ n.v }}{{ loop.depth }}" + self.tag("if n.c") + "(" + self.var("loop(n.c)") + ")" + self.tag("endif")
+                        + self.tag("else") + "empty" + self.tag("endfor"))
+            f("nested-loops")
+            return (self.tag("for a in li") + self.tag("for b in [1, 2]") + "{{ loop.index }}{{ a + b }}" + self.tag("if b > p0") + self.tag("break") + self.tag("endif")
+                    + self.tag("endfor") + "{{ loop.index0 }}{{ loop.last }}" + self.tag("endfor"))
         if k == 27:
             f("cond-expr")
             return self.var(f"{self.e_any(sc, 1)} if {self.e_bool(sc, 2)} else {self.e_any(sc, 1)}")
@@ -464,6 +590,99 @@ class Gen:
             return self.var(r.choice(["obj.l|join(',')", "obj|dictsort", "d|dictsort", "li", "ls", "d.items()|list|sort", "{'x': [1, 2]}.x[1]", "[1, [2, 3]][1][0]", "(1, 2)", "li|batch(2)|list", "li|slice(2)|list",
                                       "li|map('string')|join('+')", "ls|join('|')|upper", "n0", "none", "li|first|default('empty')", "1.5 + i0", "i0 / 2", "10 // 4 * 2.0", "s0|list|length", "s0|e", "s0|safe|e", "s0|center(9)"]))
         return self.text()
+
+    def reader(self):
+        """pull in a template that READS context names (reader / readmac), in one of the ways a template can"""
+        r = self.r
+        j = r.randint(0, 7)
+        rare = r.random() < 0.06
+        if j <= 2: return self.tag("include 'reader'" + (" without context" if rare else r.choice(["", "", " with context"])))
+        if j == 3: return self.tag("import 'readmac' as rm" + (r.choice(["", " without context"]) if rare else " with context")) + self.var("rm.show()" if not rare else "rm.plain(1)")
+        if j == 4: return self.tag("from 'readmac' import show, plain" + ("" if rare else " with context")) + self.var("show()" if not rare else "plain(2)")
+        if j == 5: return self.tag("include ['nope', 'reader']")
+        if j == 6: return self.var("i0 ~ '/' ~ s0")
+        return self.tag("include 'reader' ignore missing")
+
+    def shadow_stmt(self, sc, depth):
+        """assign a name that the render context ALSO supplies, with readers before and after the assignment,
+        at top level or inside a for / with / if / block-set body"""
+        r = self.r
+        self.features.add("shadow-context-name")
+        name, expr = r.choice([("i0", self.e_int(sc, 1)), ("s0", self.e_str(sc, 1)), ("b0", self.e_bool(sc, 1)), ("i0", str(r.randint(100, 999))), ("s0", "'local'")])
+        how = r.randint(0, 5)
+        before = self.reader() if r.random() < 0.7 else ""
+        after = self.reader() if r.random() < 0.7 else ""
+        if sc.no_include:
+            before = after = self.var("i0 ~ s0")
+        if how <= 1:
+            core = before + self.tag(f"set {name} = {expr}") + after
+        elif how == 2:
+            core = before + self.tag(f"with {name} = {expr}") + self.reader() + self.tag("endwith") + after
+        elif how == 3 and name == "i0":
+            core = before + self.tag("for i0 in [7, 8]") + self.reader() + self.tag("endfor") + after
+        elif how == 4:
+            core = before + self.tag("if b1") + self.tag(f"set {name} = {expr}") + self.tag("endif") + after
+        else:
+            core = before + self.tag(f"set {name} = {expr}") + self.tag(f"set {name} = {name}") + after
+        wrap = r.randint(0, 4) if depth > 0 else 0
+        if wrap == 1:
+            return self.tag("for z in [1, 2]") + core + self.tag("endfor")
+        if wrap == 2:
+            return self.tag("with") + core + self.tag("endwith")
+        if wrap == 3:
+            return self.tag("if true") + core + self.tag("endif") + self.var(name)
+        return core
+
+    def extends_family(self, tpl, main_name):
+        """base (nested + scoped blocks) / mid / child with output before and after the extends tag and in-place blocks"""
+        r = self.r
+        f = self.features.add
+        f("extends")
+        rs = self.root_scope
+        base = self.text(5) + self.tag("block outer") + self.text(3) + self.tag("block inner") + self.body(rs(), 1, 1) + self.tag("endblock inner") + self.text(3) + self.tag("endblock")
+        base += self.tag("for x in [1, 2]") + self.tag("block item scoped") + "{{ x }}" + self.tag("endblock") + self.tag("endfor")
+        base += self.tag("block tail") + self.body(rs(), 1, 1) + self.tag("endblock") + self.text(4)
+        if r.random() < 0.3:
+            base += self.var(r.choice(["self.inner()", "self.tail()"]))
+        tpl["base"] = base
+        parent = "base"
+        if r.random() < 0.35:
+            f("three-level-inheritance")
+            tpl["mid"] = self.tag("extends 'base'") + self.tag("block inner") + "mid[" + self.var("super()") + "]" + self.tag("endblock") + self.tag("block tail") + "midtail" + self.tag("endblock")
+            parent = "mid"
+        child = ""
+        if r.random() < 0.5:
+            f("output-before-extends")
+            child += "".join(r.choice([self.text(6), self.var(self.e_out(rs(), 1)), self.tag("set early = 1"),
+                                       self.tag("block early" + str(self.fresh(""))) + "inplace" + self.tag("endblock")]) for _ in range(r.randint(1, 3)))
+            if r.random() < 0.4:
+                child += self.tag("block tail") + "tail-in-place" + self.tag("endblock")
+        ext = r.randint(0, 9)
+        if ext == 0:
+            f("conditional-extends")
+            child += self.tag("if b0") + self.tag(f"extends '{parent}'") + self.tag("endif")
+        elif ext == 1:
+            child += self.tag(f"extends parent_name")
+        else:
+            child += self.tag(f"extends '{parent}'")
+        child += self.text(4)
+        used = {"tail"} if "block tail" in child else set()
+        for b in r.sample(["outer", "inner", "item", "tail"], r.randint(0, 4)):
+            if b in used:
+                continue
+            used.add(b)
+            inner = self.body(rs(), 2, r.randint(1, 2)) if b != "item" else "<{{ x }}>"
+            if r.random() < 0.5:
+                inner += self.var("super()")
+            if b == "outer" and "inner" not in used and r.random() < 0.5:
+                f("nested-block-override")
+                inner += self.tag("block inner") + "nested" + self.var("super()") * r.randint(0, 1) + self.tag("endblock")
+                used.add("inner")
+            child += self.tag(f"block {b}" + (" scoped" if b == "item" else "")) + inner + self.tag("endblock" + r.choice(["", " " + b])) + self.text(3)
+        if r.random() < 0.3:
+            f("output-after-blocks")
+            child += self.var(self.e_out(rs(), 1)) + self.text(3)
+        tpl[main_name] = child
 
     # ---------------------------------------------------------------- whole template sets
     def library(self):
@@ -476,29 +695,18 @@ class Gen:
         r = self.r
         self.features = set()
         ctx = self.context()
-        tpl = {"lib": self.library()}
+        tpl = {"lib": self.library(),
+               "reader": "<{{ i0 }}|{{ s0 }}|{{ b0 }}|{{ li|length }}>",
+               "readmac": "{% macro show() %}<{{ i0 }}|{{ s0 }}>{% endmacro %}{% macro plain(v) %}({{ v }}){% endmacro %}"}
+        ctx["parent_name"] = "base"
         sc1 = self.root_scope()
         tpl["inc1"] = self.body(sc1, 1, r.randint(1, 3))
         sc2 = self.root_scope()
         tpl["inc2.html"] = self.body(sc2, 1, r.randint(1, 3))
         sc = self.root_scope()
         main_name = r.choice(["main", "main", "main.j2", "main.html", "main.json"])
-        if r.random() < 0.2:
-            self.features.add("extends")
-            blocks = ["b1", "b2"]
-            base = self.text(6)
-            for b in blocks:
-                base += self.tag(f"block {b}" + r.choice(["", " scoped"])) + self.body(self.root_scope(), 1, 2) + self.tag("endblock" + r.choice(["", " " + b]))
-                base += self.text(6)
-            base += self.var("self.b1()") if r.random() < 0.3 else ""
-            tpl["base"] = base
-            child = self.tag("extends 'base'") + self.text(4)
-            for b in r.sample(blocks, r.randint(0, 2)):
-                inner = self.body(self.root_scope(), 2, 2)
-                if r.random() < 0.5:
-                    inner += self.var("super()")
-                child += self.tag(f"block {b}") + inner + self.tag("endblock") + self.text(3)
-            tpl[main_name] = child
+        if r.random() < 0.22:
+            self.extends_family(tpl, main_name)
         else:
             tpl[main_name] = self.body(sc, 3, r.randint(2, 6))
         # every template and every included / imported / extended partial ends in 0..3 line breaks of some style
